@@ -168,7 +168,15 @@ def extract(profile="dev", repo=None, quiet=True):
         os.rename(tmp, fdir)
         # keep the cache small: drop all but the 6 newest fact sets
         froot = os.path.join(BUILD, "facts")
-        ents = sorted((os.path.getmtime(os.path.join(froot, d)), d) for d in os.listdir(froot) if ".tmp." not in d)
+        ents = []
+        for d in os.listdir(froot):
+            if ".tmp." in d:
+                continue
+            try:
+                ents.append((os.path.getmtime(os.path.join(froot, d)), d))
+            except OSError:
+                pass              # removed by a check running side by side
+        ents.sort()
         for mt, d in ents[:-6]:
             if time.time() - mt < 1200:
                 continue          # checks may run side by side (campaign workers): a set extracted minutes ago may still be in use
